@@ -71,13 +71,18 @@ func Serve(sockpath, dbpath string, opts ServeOpts) int {
 	if err != nil {
 		logger.Printf("failed to listen on %s: %v", sockpath, err)
 		logger.Println("aborting")
+		verifPause("daemon.listen-failed", sockpath, 0)
 		return 2
 	}
+	verifPause("daemon.listening", sockpath, 0)
 
 	st, err := store.NewStore(dbpath)
 	if err != nil {
 		logger.Printf("failed to create storage: %v", err)
 		logger.Printf("serving anyway")
+		verifPause("daemon.db-failed", sockpath, 0)
+	} else {
+		verifPause("daemon.db-opened", sockpath, 0)
 	}
 
 	server := rpc.NewServer()
@@ -126,6 +131,7 @@ func Serve(sockpath, dbpath string, opts ServeOpts) int {
 	if opts.Ready != nil {
 		close(opts.Ready)
 	}
+	verifPause("daemon.serving", sockpath, 0)
 
 loop:
 	for {
@@ -156,20 +162,24 @@ loop:
 		}
 	}
 
+	verifPause("daemon.before-remove", sockpath, 0)
 	err = os.Remove(sockpath)
 	if err != nil {
 		logger.Printf("failed to remove socket %s: %v", sockpath, err)
 	}
+	verifPause("daemon.after-remove", sockpath, 0)
 	if st != nil {
 		err = st.Close()
 		if err != nil {
 			logger.Printf("failed to close storage: %v", err)
 		}
 	}
+	verifPause("daemon.before-close", sockpath, 0)
 	err = listener.Close()
 	if err != nil {
 		logger.Printf("failed to close listener: %v", err)
 	}
+	verifPause("daemon.closed", sockpath, 0)
 	// Ensure that the listener goroutine has exited before returning
 	<-listenErrCh
 	return 0
